@@ -138,7 +138,10 @@ fn offer(target: Target, s: &[u8], incremental: bool, rec: &mut Rec) {
                         break 'outer;
                     }
                     if let Any::A(f) = &flow {
-                        if !f.can_keep_await_100() {
+                        // half of the growing-window callers go by the return value alone ("Ok(0): not enough
+                        // data yet, continue waiting") and look again although the decision has been made
+                        let by_return_value = incremental && s.len() % 2 == 0;
+                        if !f.can_keep_await_100() && !(by_return_value && c == 0) {
                             break 'outer;
                         }
                     }
@@ -167,8 +170,12 @@ fn offer(target: Target, s: &[u8], incremental: bool, rec: &mut Rec) {
                 }
             }
         }
-        Any::R(f) => {
+        Any::R(mut f) => {
             let _ = f.can_proceed();
+            // offering complete heads again (a caller that peeks, or that wants what follows a 1xx)
+            for _ in 0..6 {
+                let _ = f.try_response(b"HTTP/1.1 200 OK\r\nConnection: close\r\n\r\n");
+            }
             if let Some(n) = f.proceed() {
                 match n {
                     RecvResponseResult::RecvBody(mut b) => {
